@@ -53,7 +53,7 @@ def configurations(tier):
 
 def plan(tier, seed):
     if tier == "quick":
-        nn, nc, ns, scale, scripts = 6, 4, 6, 1, 24000
+        nn, nc, ns, scale, scripts = 6, 4, 6, 4, 90000
     else:
         nn, nc, ns, scale, scripts = 16, 16, 16, 100, 6000000
     shards = [{"kind": "nets", "slice": i, "of": nn, "scale": scale, "label": "nets%d" % i} for i in range(nn)]
